@@ -459,6 +459,27 @@ static void random_histories(vh::Rng & rng, unsigned count, unsigned len)
         }
         vh::stat("histories");
         vh::stat("random_history_ops", h.size());
+#if defined(SH_DIGEST)
+        {
+            // every value of every live field at the end of the history
+            uint64_t dg = hash_hist(h);
+            for (int s = 0; s < 4; ++s) {
+                const Model & d = p.m[s];
+                if (d.state != 1) continue;
+                Pool::dispatch(d.type, [&](auto T) {
+                    typename type_of<T.value>::type::view_t v(*std::get<T.value>(p.f[s]));
+                    for (unsigned x = 0; x < d.ex; ++x)
+                        for (unsigned y = 0; y < d.ey; ++y)
+                            for (unsigned j = 0; j < comps<T.value>(); ++j) {
+                                auto val = cell<T.value>(v, x, y, d.ey)[j];
+                                dg = vh::mix(dg, val);
+                            }
+                });
+            }
+            std::printf("@DIGEST history#%u\t%016llx\n", n, (unsigned long long)dg);
+            vh::stat("programs");
+        }
+#endif
         if (nontrivial_hist(h)) vh::nontrivial(hash_hist(h));
         if (n == 0) vh::sample(tag, show(std::vector<Op>(h.begin(), h.begin() + (h.size() > 10 ? 10 : h.size()))) + " ... (" + std::to_string(h.size()) + " operations)", 1);
 #if defined(__SANITIZE_ADDRESS__)
@@ -489,7 +510,11 @@ int main(int argc, char ** argv)
 #endif
 #endif
 #if defined(SH_RANDOM)
+#if defined(SH_DIGEST)
+    random_histories(rng, th ? 1500 : 150, 120);
+#else
     random_histories(rng, th ? 25000 : 500, 200);
+#endif
 #endif
     return vh::finish();
 }
